@@ -128,6 +128,7 @@ struct Plan {
   std::vector<std::string> argv;                 // argv[0] = program name
   std::map<std::string, std::string> env;
   int ncpu = 4;
+  unsigned umask = 022;        // file mode creation mask of the simulated process
   int nofile = 1024;           // RLIMIT_NOFILE of the simulated process: open() fails with EMFILE beyond it (descriptor leaks must show, seeded change C17-4)
   uint64_t inherit_mask = 0;   // signals blocked in the mask the process inherits from its parent (bit s = signal s; seeded change C15-4)
   bool ign_pipe = false, ign_xfsz = false;       // inherited SIG_IGN
